@@ -109,13 +109,16 @@ class CreatePredictorBase(ASTNode):
         if_not_exists_str = 'IF NOT EXISTS ' if self.if_not_exists else ''
         object_str = self._object + ' ' if self._object else ''
 
+        clauses_str = f'{order_by_str}{group_by_str}{window_str}'
+        if horizon_str and using_str and not clauses_str:
+            # right behind the PREDICT columns the word HORIZON would be read as an alias
+            clauses_str = f'{using_str} {horizon_str}'
+        else:
+            clauses_str += f'{horizon_str}{using_str}'
+
         out_str = f'{self._action}{or_replace_str} {object_str}{if_not_exists_str}{self.name.to_string()} {query_str}' \
                   f'{targets_str} ' \
-                  f'{order_by_str}' \
-                  f'{group_by_str}' \
-                  f'{window_str}' \
-                  f'{horizon_str}' \
-                  f'{using_str}'
+                  f'{clauses_str}'
 
         return out_str.strip()
 
